@@ -468,6 +468,39 @@ pub fn run_c16(out: &mut Out, rng: &mut Rng, thorough: bool, only: Option<&str>)
                 }
             }
         }
+        // (b') a grid of TWO independent faults in a text of the right length - a header value only the strict
+        // parser rejects x a non-hexadecimal byte in every later header character, the first and the last body
+        // character - with and without the prefix, through the string-like events only
+        for with_prefix in [true, false] {
+            for strict_fault in 0..2 {
+                let mut b = good.clone();
+                if strict_fault == 0 {
+                    b[v.ck_len()] = 0xaa + rng.below(80) as u8;
+                } else {
+                    b[0] = 0x31 + rng.below(200) as u8;
+                }
+                let clean = hex_text_unchecked(v, &b, with_prefix);
+                let off = if with_prefix { 2 } else { 0 };
+                let first_after = off + if strict_fault == 0 { 2 * v.ck_len() + 2 } else { 2 };
+                let mut at: Vec<usize> = (first_after..(off + 2 * v.ck_len() + 4)).collect();
+                at.push(off + 2 * v.ck_len() + 4);
+                at.push(clean.len() - 1);
+                for &i in &at {
+                    for &bad in &[b'G', 0xffu8, b' '] {
+                        let mut t = clean.clone();
+                        t[i] = bad;
+                        for human in [true, false] {
+                            for ev in ["str", "bytes", "borrowed_bytes", "string"] {
+                                if matches!(ev, "str" | "string") && std::str::from_utf8(&t).is_err() {
+                                    continue;
+                                }
+                                emit_de(out, v, human, ev, &t);
+                            }
+                        }
+                    }
+                }
+            }
+        }
         // (c) documents of real formats
         for p in &payloads {
             if std::str::from_utf8(p).is_ok() && !p.iter().any(|&c| c == b'"' || c == b'\\' || c < 0x20) {
